@@ -5,7 +5,13 @@ package storage
 import (
 	"context"
 
+	"github.com/marekgalovic/anndb/cluster"
 	"github.com/marekgalovic/anndb/index"
+	"github.com/marekgalovic/anndb/storage/raft"
+	"github.com/marekgalovic/anndb/storage/wal"
+
+	etcdRaft "github.com/coreos/etcd/raft"
+	badger "github.com/dgraph-io/badger/v2"
 
 	"github.com/marekgalovic/anndb/verifrt"
 )
@@ -92,6 +98,38 @@ func VerifC04() {
 		verifrt.Assert(C.process(data) == nil, "replica-apply-never-fails")
 	}
 	verifSameContents(A, C, nIds, "snapshot+replay")
+
+	// D: a replica that applied a prefix, was removed from the partition (its raft group is
+	// unloaded and its log store deleted) and is added again in the same process: its log
+	// store is empty, so it is sent the whole log from the start
+	if verifrt.Bound("reload", 0) == 1 && prefix > 0 {
+		verifrt.Hook("raftnode", func(kind string, rcfg *etcdRaft.Config, npeers int) etcdRaft.Node {
+			return &verifNode{proposals: make(chan verifProposal, 8)}
+		})
+		db, derr := badger.Open(badger.DefaultOptions("").WithInMemory(true))
+		if derr != nil {
+			panic(derr)
+		}
+		conn, cerr := cluster.NewConn(1, "n1:0", "")
+		if cerr != nil {
+			panic(cerr)
+		}
+		D := verifPartition(dim, cfg)
+		D.wal = wal.NewBadgerWAL(db, D.id)
+		D.raftTransport = raft.NewTransport(1, "n1:0", conn)
+		verifrt.Assert(D.loadRaft([]uint64{1}) == nil, "replica-loads")
+		for _, data := range verifLog[:prefix] {
+			verifrt.Assert(D.process(data) == nil, "replica-apply-never-fails")
+		}
+		verifrt.Assert(D.unloadRaft() == nil, "replica-unloads")
+		verifrt.Assert(D.loadRaft(nil) == nil, "replica-loads-again")
+		for _, data := range verifLog {
+			verifrt.Assert(D.process(data) == nil, "replica-apply-never-fails")
+		}
+		verifrt.Tag("removed-and-re-added")
+		verifSameContents(A, D, nIds, "re-added-replica-replay")
+		verifrt.Reach("reloaded")
+	}
 	// a search on the restored replica returns live items with their current metadata
 	query := make([]float32, dim)
 	for d := range query {
